@@ -350,6 +350,50 @@ fn run_primitives(
             }
         }
     }
+    // life cycle: the primitives on a document that was removed and created again in the same
+    // store (after they had been asked on the populated document) are those of the empty set
+    if !with_removal {
+        let mut party2 = build_real(kind, main, neigh, &offered);
+        let Party::Real { sut, .. } = &mut party2 else {
+            unreachable!()
+        };
+        let d = RecordIdentifier::default();
+        {
+            let mut replica = sut.store.open_replica(&ns).expect("open");
+            let mut p = Primitives(&mut replica);
+            let _ = p.get_fingerprint(d.clone(), d.clone());
+            let _ = p.get_first();
+            let _ = p.get_range_len(d.clone(), d.clone());
+        }
+        sut.store.close_replica(ns);
+        let removed = sut.store.remove_replica(&ns);
+        let created = sut.store.import_namespace(iroh_docs::Capability::Write(crate::universe::ns_secret(main)));
+        if removed.is_err() || created.is_err() {
+            bad.push(("remove_and_recreate", json!({"backend": kind}), format!("{removed:?} {:?}", created.map(|_| ()))));
+        } else {
+            let mut empty = RefBackend::default();
+            let mut replica = sut.store.open_replica(&ns).expect("open");
+            let mut p = Primitives(&mut replica);
+            let mut pairs = vec![(d.clone(), d.clone())];
+            if let (Some(x), Some(y)) = (lat.first(), lat.last()) {
+                pairs.push((x.clone(), y.clone()));
+                pairs.push((y.clone(), x.clone()));
+            }
+            for (x, y) in &pairs {
+                calls += 3;
+                let fp = p.get_fingerprint(x.clone(), y.clone()).expect("fp");
+                let got = p.get_range(x.clone(), y.clone()).expect("get_range");
+                let n = p.get_range_len(x.clone(), y.clone()).expect("len");
+                if fp != empty.get_fingerprint(x, y).unwrap() || !got.is_empty() || n != 0 {
+                    bad.push((
+                        "primitives_after_remove_and_recreate",
+                        json!({"backend": kind, "fingerprint_differs": fp != empty.get_fingerprint(x, y).unwrap(), "range_not_empty": !got.is_empty() || n != 0}),
+                        format!("document removed and created again: get_fingerprint / get_range / get_range_len ({},{}) are not those of the empty set (range {} entries, len {n})", show_id(x), show_id(y), got.len()),
+                    ));
+                }
+            }
+        }
+    }
     (bad, format!("{digest:016x}"), calls)
 }
 
